@@ -68,6 +68,14 @@ CHECKS = [
              "block, single-byte corruption at every offset and an I/O error at every refill index, and each run is validated by TLC.",
      "note": TLC_NOTE,
      "technique": "abstract reader property as a TLA+ trace spec; exhaustive fault enumeration over real files (every offset / refill index), each run trace-validated by TLC"},
+    {"property_id": "C11", "level": "model_checking", "design_ref": "DESIGN.md §6 C11",
+     "text": "TLC checks on all byte strings (7-byte alphabet, length <= 5) x every first-refill length x {i32,i64,u32,u64} that the buffered reader's "
+             "varint fast path / byte-wise fallback and read_slice agree with the slice reader (BufReadModel.tla; the as-found 5-byte fallback cap is "
+             "rejected). The real slice and reader entry points are compared on hostile varint strings and on the codec corpus under ALL compositions of "
+             "the input into refills (length <= 8/10) and random refills beyond, for datum, single-object and container input (6 codecs, every uniform "
+             "refill size).",
+     "note": TLC_NOTE + " The verdict on the real code is equality of the two real readers' outcomes.",
+     "technique": "TLA+ model of the buffered-read primitives checked by TLC + differential replay of slice vs chunked readers over exhaustive refill partitions"},
     {"property_id": "C12", "level": "model_checking", "design_ref": "DESIGN.md §6 C12",
      "text": "TLC checks that the implementation-shaped skipping semantics (AvroSkip.tla: unvalidated strings, unsigned varints, jumping over sized blocks) "
              "ends exactly where Dec ends for every layout of every enumerated value; the real decoder is run with every sub-tree (two levels) ignored, "
